@@ -33,6 +33,7 @@ type aeCfg struct {
 	Ranges  bool // declare valuesRange [0,2]
 	Extra   bool // one known, not considered alternative zz with value 3 on every criterion (widens the observed range)
 	Reverse bool // choseToMake / knownAlternatives listed in descending id order
+	Narrow  bool // declare a valuesRange that the values exceed on the bad side: gain [1,2], cost [0,1] (values are in {0,1,2})
 }
 
 func critIDs(m int) []string {
@@ -49,7 +50,11 @@ func aeRequest(cfg aeCfg) M {
 	var crits L
 	w := M{}
 	for j, id := range cids {
-		if cfg.Ranges {
+		if cfg.Narrow && cfg.Types[j] == "cost" {
+			crits = append(crits, critR(id, cfg.Types[j], 0, 1))
+		} else if cfg.Narrow {
+			crits = append(crits, critR(id, cfg.Types[j], 1, 2))
+		} else if cfg.Ranges {
 			crits = append(crits, critR(id, cfg.Types[j], 0, 2))
 		} else {
 			crits = append(crits, crit(id, cfg.Types[j]))
@@ -152,6 +157,9 @@ func aeMatches(resp *Response, elims []aeElim, survivors []string) bool {
 }
 
 func c12Check(c *Case) []Violation {
+	if c.Kind == "seeded-order" {
+		return seededOrderRepeatable(c, "C12")
+	}
 	req := asM(roundTrip(c.Req))
 	out := Decide(J(c.Req), scriptFromCase(c))
 	if !out.Accepted {
@@ -353,6 +361,10 @@ func genSpecs(increasing bool) []levelSpec {
 		for _, coef := range []float64{0.25, 0.5} {
 			for _, m := range mm {
 				out = append(out, levelSpec{Fn: fn, Coef: coef, Min: m[0], Max: m[1]})
+				if m[0] == 0 && coef == 0.5 {
+					// the same series with minValue left to its default, listed right after series that set it
+					out = append(out, levelSpec{Fn: fn, Coef: coef, Min: m[0], Max: m[1], OmitMin: true})
+				}
 			}
 		}
 	}
@@ -415,6 +427,12 @@ func aeEnumerate(s *Shard, prop string, fn func(c *Case)) {
 							}
 						}
 						fn(&Case{Prop: prop, Kind: "aspect", Req: aeRequest(cfg)})
+						if g.n >= 2 && g.n <= 3 && g.m == 2 && si%2 == 0 {
+							// the declared scale is narrower than the values: alternatives beyond its bad end
+							nc := cfg
+							nc.Narrow, nc.Extra = true, false
+							fn(&Case{Prop: prop, Kind: "aspect", Req: aeRequest(nc)})
+						}
 						if g.n == 3 && si%2 == 1 {
 							rc := cfg
 							rc.Reverse = true
@@ -433,9 +451,43 @@ func aeEnumerate(s *Shard, prop string, fn func(c *Case)) {
 	}
 }
 
+// longSeries: generated series of more than a thousand levels (slow coefficients), alternatives that pass / fail late.
+func longSeries(increasing bool) []levelSpec {
+	if increasing {
+		return []levelSpec{{Fn: "idealMultipliedCoefficient", Coef: 0.999, Min: 0.3, Max: 1}, {Fn: "idealAdditiveCoefficient", Coef: 0.0005, Min: 0.2, Max: 1}}
+	}
+	return []levelSpec{{Fn: "idealMultipliedCoefficient", Coef: 0.999, Min: 0.3, Max: 1}, {Fn: "idealSubtractiveCoefficient", Coef: 0.0005, Min: 0.2, Max: 1}}
+}
+
+func aeLong(s *Shard, prop string, fn func(c *Case)) {
+	lv := []float64{0.5, 1, 2.9}
+	for _, spec := range longSeries(true) {
+		for _, typ := range []string{"gain", "cost"} {
+			Product([]int{3, 3, 3}, func(idx []int) {
+				if !s.Take() {
+					return
+				}
+				vals := [][]float64{{lv[idx[0]], 1}, {lv[idx[1]], 1}, {lv[idx[2]], 1}}
+				cfg := aeCfg{N: 3, Vals: vals, Types: []string{typ, "gain"}, Weights: []float64{2, 1}, Spec: spec, Extra: true}
+				fn(&Case{Prop: prop, Kind: "aspect", Req: aeRequest(cfg)})
+			})
+		}
+	}
+}
+
 func c12Run(s *Shard) {
 	cur = s
 	majoritySample := 0
+	seededOrderCases(s, "C12", "aspectEliminationHeuristic", func(c *Case) {
+		s.Evals += 4
+		s.Begin(c)
+		s.Report(c12Check(c))
+	})
+	aeLong(s, "C12", func(c *Case) {
+		s.Evals++
+		s.Begin(c)
+		s.Report(c12Check(c))
+	})
 	aeEnumerate(s, "C12", func(c *Case) {
 		s.Evals++
 		s.Begin(c)
